@@ -56,20 +56,32 @@ def run_chunks(exe, blocks, workdir, tag, extra_args=(), timeout=1500, env=None)
     os.makedirs(workdir, exist_ok=True)
     n = min(NPROC, max(1, len(blocks) // 20))
     chunks = [blocks[i::n] for i in range(n)]
-    files = []
-    for i, ch in enumerate(chunks):
-        p = os.path.join(workdir, "%s-%d.cases" % (tag, i))
-        with open(p, "w") as f: f.write("".join(b for _, b in ch))
-        files.append(p)
-    def one(p):
-        rc, o, e = fw.sh([exe] + list(extra_args) + [p], timeout=timeout, env=env)
-        return rc, o, e
+    files = [os.path.join(workdir, "%s-%d.cases" % (tag, i)) for i in range(len(chunks))]
+    def one(arg):
+        """run one chunk; when the process dies in the middle (a model case that exhausts the stack / memory), the case it
+        died on is marked and the rest of the chunk is run again"""
+        p, ch = arg
+        out, errs, todo, rounds = {}, [], list(ch), 0
+        while todo and rounds < 8:
+            rounds += 1
+            with open(p, "w") as f: f.write("".join(b for _, b in todo))
+            rc, o, e = fw.sh([exe] + list(extra_args) + [p], timeout=timeout, env=env)
+            got = parse_output(o)
+            out.update(got)
+            if rc == 0: break
+            missing = [i for i, (cid, _) in enumerate(todo) if cid not in got]
+            if not missing:
+                errs.append("rc=%d %s" % (rc, e[-300:])); break
+            k = missing[0]
+            # the last case with output may be the one that died half-way: keep what it printed, mark the first missing one
+            out[todo[k][0]] = ["!! DIED rc=%d %s" % (rc, e.strip()[-120:].replace("\n", " "))]
+            todo = todo[k + 1:]
+        return out, errs
     res = {}
     with cf.ThreadPoolExecutor(max_workers=n) as ex:
-        for (rc, o, e) in ex.map(one, files):
-            res.update(parse_output(o))
-            if rc != 0:
-                res.setdefault("__errors__", []).append("rc=%d %s" % (rc, e[-400:]))
+        for (out, errs) in ex.map(one, list(zip(files, chunks))):
+            res.update(out)
+            if errs: res.setdefault("__errors__", []).extend(errs)
     return res
 
 def norm_read(lines):
@@ -132,6 +144,14 @@ def lockstep_read(ctx, t, blocks, what, stats):
             continue
         stats["evaluations"] += 1
         r0 = a[0] if a else "<empty>"
+        m0 = (b[0] if b else "")
+        # allocation range the model does not decide: the model's single limit (o_alloc = 64 KiB in the driver, so that no
+        # count-driven loop of the extracted code runs long) says bad_alloc, the real process (RLIMIT_AS 4 GiB) could allocate:
+        # any defined outcome is accepted there - also a time-out, the loop being bounded by an allocatable count - a crash
+        # is not (the real run may also get past the model's failing allocation and end in a later length_error).
+        if m0.startswith("result=exn:bad_alloc") and not r0.startswith("result=exn:bad_alloc") and not any(l.startswith("!! CRASH") or l.startswith("!O ") for l in a):
+            stats["alloc_range_skipped"] = stats.get("alloc_range_skipped", 0) + 1
+            continue
         stats["outcomes"][r0.split(" ")[0]] = stats["outcomes"].get(r0.split(" ")[0], 0) + 1
         # impl-side oracles: independent of the model
         bad = [l for l in a if l.startswith("!! ") or l.startswith("!O ")]
@@ -186,7 +206,7 @@ def replay_blocks(ctx):
     return rblocks, wtext
 
 def new_stats():
-    return {"evaluations": 0, "nontrivial": set(), "outcomes": {}, "divergences": 0}
+    return {"evaluations": 0, "nontrivial": set(), "outcomes": {}, "divergences": 0, "alloc_range_skipped": 0, "rerun_plain": 0}
 
 # ------------------------------------------------------------------------------------------------ token differential
 
@@ -308,7 +328,8 @@ def finish_stats(ctx, stats, rule):
     ctx.cov["evaluations"] += stats["evaluations"]
     ctx.cov["distinct_nontrivial"] += len(stats["nontrivial"])
     ctx.cov["rule"] = (ctx.cov.get("rule", "") + " || " if ctx.cov.get("rule") else "") + rule
-    ctx.cov.setdefault("ascii", {}).update({"outcomes": dict(sorted(stats["outcomes"].items())), "divergences": stats["divergences"]})
+    ctx.cov.setdefault("ascii", {}).update({"outcomes": dict(sorted(stats["outcomes"].items())), "divergences": stats["divergences"],
+                                            "alloc_range_skipped": stats.get("alloc_range_skipped", 0), "rerun_on_plain_build": stats.get("rerun_plain", 0)})
 
 def ascii_part_C07(ctx):
     import asciigen
